@@ -1422,13 +1422,21 @@ func c20GenPrograms(c *Ctx, w *world, nTasks int) [][]opInst {
 	maxOps := 6 + c.G(26)
 	// swarm: a random subset of operations is enabled per run
 	enabled := make([]int, 0, len(opTable))
+	focused := c.G(5) == 0 // a narrow world: a handful of operations meet each other again and again
 	for i := range opTable {
-		if c.G(3) != 0 {
+		if focused {
+			if c.G(12) == 0 {
+				enabled = append(enabled, i)
+			}
+		} else if c.G(3) != 0 {
 			enabled = append(enabled, i)
 		}
 	}
-	if len(enabled) == 0 {
-		enabled = append(enabled, 0)
+	for len(enabled) < 2 {
+		enabled = append(enabled, c.G(len(opTable)))
+	}
+	if focused {
+		c.Probe("c20.focused-world")
 	}
 	anyIdx := func() int { return c.G(len(w.vals)) }
 	pick := func(s sel, first ref, nRes int) ref {
